@@ -15,6 +15,7 @@ from harness.build import mkcollection, mkgene, mkfc, mktx, mkfeat, mkcds, mkvc,
 from harness.core import Leg, Prop, VERIF_DIR, REPO_DIR
 from harness.guid_worker import describe
 from inscripta.biocantor.gene.cds import CDSInterval
+from inscripta.biocantor.parent import Parent
 from inscripta.biocantor.gene.collections import AnnotationCollection
 from inscripta.biocantor.gene.feature import FeatureInterval, FeatureIntervalCollection
 from inscripta.biocantor.gene.gene import GeneInterval
@@ -42,6 +43,9 @@ def nd(d):
 
 def parent_of(spec):
     g = spec.get("genome")
+    if spec.get("seqless"):
+        # a parent that only names and/or types the chromosome (what parsers build when no FASTA is given)
+        return Parent(id=spec["seqless"].get("id"), sequence_type=spec["seqless"].get("type"))
     if g is None:
         return None
     if spec.get("chunk"):
@@ -105,7 +109,9 @@ def check_roundtrip(spec, ctx):
     kind, o = spec["kind"], spec["obj"]
     parent = parent_of(spec)
     x = BUILD[kind](o, parent)
-    with_seq = parent is not None
+    with_seq = parent is not None and spec.get("genome") is not None
+    if spec.get("seqless"):
+        ctx.label("sequence_less_parent", "sequence_less_parent:" + "+".join(sorted(k for k, v in spec["seqless"].items() if v)))
     # dictionary export/import
     y = CLS[kind].from_dict(copy.deepcopy(x.to_dict()), parent_of(spec))
     same_object(ctx, "dict_roundtrip", x, y, with_seq)
@@ -286,8 +292,10 @@ def strat_obj(draw, tier="quick", kinds=("collection", "collection", "collection
         hi = max(v["end"] for v in vs)
     sp = {"kind": kind, "obj": o}
     explicit_bounds = kind == "collection" and draw(st.integers(0, 2)) == 0
-    mode = draw(st.sampled_from(["none", "chrom", "chrom", "chunk", "chunk"]))
-    if mode != "none":
+    mode = draw(st.sampled_from(["none", "chrom", "chrom", "chunk", "chunk", "seqless"]))
+    if mode == "seqless":
+        sp["seqless"] = draw(st.sampled_from([{"id": "chr1"}, {"type": "chromosome"}, {"id": "chr1", "type": "chromosome"}, {"id": "c", "type": "contig"}]))
+    elif mode != "none":
         n = hi + draw(st.integers(1, 6))
         sp["genome"] = draw(S.dna(n, n))
         if mode == "chunk":
@@ -301,7 +309,7 @@ def strat_obj(draw, tier="quick", kinds=("collection", "collection", "collection
     if explicit_bounds:
         # collection bounds given explicitly: inside the sequence / chunk window and containing every member
         lo_m = _lo(kind, o)
-        w_lo, w_hi = (sp["chunk"] if sp.get("chunk") else (0, hi + 6 if mode == "none" else len(sp["genome"])))
+        w_lo, w_hi = (sp["chunk"] if sp.get("chunk") else (0, hi + 6 if mode in ("none", "seqless") else len(sp["genome"])))
         o["start"] = draw(st.integers(w_lo, max(w_lo, lo_m)))
         o["end"] = draw(st.integers(hi, max(hi, w_hi)))
     return sp
@@ -345,7 +353,7 @@ PROP = Prop(
     pid="C08",
     legs=[
         Leg("roundtrip", check_roundtrip, strategy=strat_obj, n_quick=500, n_thorough=4000, shards_quick=4,
-            must_hit=["variants_present", "chunk_parent", "export_parent", "explicit_bounds_differ_from_chunk", "multi_value_qualifier", "kind:gene", "kind:vc", "kind:tx", "kind:feat", "kind:fc"],
+            must_hit=["variants_present", "chunk_parent", "export_parent", "explicit_bounds_differ_from_chunk", "sequence_less_parent:id", "sequence_less_parent:type", "multi_value_qualifier", "kind:gene", "kind:vc", "kind:tx", "kind:feat", "kind:fc"],
             rule="collections (genes, feature collections, variant collection) and every member class on its own, parent none / whole chromosome / chunk; from_dict(to_dict), export_parent, schema load/dump through JSON text, pickle"),
         Leg("determinism", check_determinism, strategy=strat_determinism, n_quick=120, n_thorough=800, shards_quick=4,
             must_hit=["qualifier_order_permuted"],
